@@ -30,7 +30,7 @@ kinds! {
     // AtomicWeak cells
     LoadW, StoreW, SwapW, CasW, CasTagW,
     // collector level (through the shim)
-    Defer, TryAdvance, Collect,
+    Defer, TryAdvance, Collect, CheckDeferred,
     // control
     Signal, Await, TlsInit,
     // QUEUE-LIN family (a = value / predicate id)
@@ -44,7 +44,7 @@ kinds! {
 /// | kind | a | b | c | d |
 /// |---|---|---|---|---|
 /// | Pin/Unpin/Reactivate/Flush | guard | | | |
-/// | PanicCs | body (0 flush, 1 defer+flush, 2 drop an Rc + flush) | | | |
+/// | PanicCs | body (0 flush, 1 defer+flush, 2 drop an Rc + flush, 3 a bulk iterator with shares left is alive) | shape / count index | | |
 /// | ReactAfter | guard | body (0 noop, 1 panic, 2 nested pin+unpin, 3 pin+flush+unpin) | | |
 /// | New | dst rc | extra-from rc (99 none) | rank class (0 = random rank) | 0 plain-Rc field; 1 AtomicRc::from(&Rc), 2 AtomicRc::from(Rc), 3 AtomicWeak::from(&Rc), 4 AtomicWeak::from(&Weak) |
 /// | NewMany | n | | | |
@@ -77,6 +77,7 @@ kinds! {
 /// | CasTagW | wcell | expected wsnap | tag index | |
 /// | Defer | guard | closure shape | chain (the function defers a child when it runs) | |
 /// | TryAdvance/Collect | guard | | | |
+/// | CheckDeferred | at least this many deferred functions must have run by now | | | |
 /// | Signal/Await | k | | | |
 ///
 /// cell  = kind*100 + slot*10 + field: kind 0 = ROOT[slot], 1 = rcs[slot].next[field], 2 = snaps[slot].next[field]
